@@ -913,7 +913,15 @@ func pqsStream(rng *vhlib.Rng, idx int, thorough bool) Stream {
 	if thorough {
 		n = rng.Range(10, 28)
 	}
+	// every block of every multi-block layout of this stream (k events per flush) starts with an event that has
+	// all three queried columns: a block that lacks a column altogether belongs to the known class
+	// sparse_column_block_without_column (stale values, not deterministic) and is kept out of this stream
+	k := rng.Range(3, 4)
 	for len(fs) < n {
+		if len(fs)%k == 0 {
+			fs = append(fs, F{"svc": sv(vhlib.Pick(rng, svcs)), "status": iv(vhlib.Pick(rng, stats)), "lat": fv(float64(rng.Range(1, 40))/4 + 0.125)})
+			continue
+		}
 		f := F{}
 		if rng.Chance(85) {
 			f["svc"] = sv(vhlib.Pick(rng, svcs))
@@ -952,7 +960,6 @@ func pqsStream(rng *vhlib.Rng, idx int, thorough bool) Stream {
 		and(svcEq, c1("lat", 4, "2.5")), and(c1("status", 5, "500"), c1("lat", 2, "5.125")),
 		or(svcCart, c1("status", 0, "500")), or(c1("status", 0, "404"), c1("lat", 4, "6.125")),
 	}
-	k := rng.Range(2, 4)
 	layouts := []LayoutCfg{
 		{Name: "raw_one_rot", Every: 0, Final: true, Aggs: true},
 		{Name: "raw_one_open", Every: 0, Final: false, Aggs: true},
